@@ -263,6 +263,28 @@ func RunList(infos []*resource.Info, exposure bool) (ToolResult, *connlist.Connl
 	}
 	res.RawConns, res.RawPeers = conns, peers
 	res.WF = WellFormed(conns, peers)
+	if exposure {
+		// the connections of the exposure entries are connections of the report too: the same canonical form
+		for _, ep := range ca.ExposedPeers() {
+			for dir, xs := range map[string][]connlist.XgressExposureData{"ingress": ep.IngressExposure(), "egress": ep.EgressExposure()} {
+				for _, e := range xs {
+					pc := e.PotentialConnectivity()
+					if pc.IsAllConnections() {
+						continue
+					}
+					full := 0
+					for _, rs := range pc.ProtocolsAndPortsMap() {
+						if len(rs) == 1 && rs[0].Start() == 1 && rs[0].End() == 65535 {
+							full++
+						}
+					}
+					if full == 3 {
+						res.WF = append(res.WF, fmt.Sprintf("all protocols and ports spelled as three full ranges: %s exposure entry of %s", dir, ep.ExposedPeer().String()))
+					}
+				}
+			}
+		}
+	}
 	for _, c := range conns {
 		m := map[string][]Interval{}
 		if c.AllProtocolsAndPorts() {
